@@ -283,3 +283,5 @@ def run(ctx):
     ctx.guarded("C09.repeatcount", r_repeatcount)
     ctx.guarded("C09.occursites", r_occursites)
     ctx.guarded("C09.prelude", r_prelude)
+    ctx.guarded("C09.ctrlrestore.json", lambda c: cv.ctrlrestore_rule(c, "C09j", "json"))
+    ctx.guarded("C09.ctrlrestore.cbor", lambda c: cv.ctrlrestore_rule(c, "C09c", "cbor"))
